@@ -356,6 +356,66 @@ theorem dec_read (n : Nat) (h : n < 10 ^ 4300) : pyInt 10 (toDec n) = some (Int.
   rw [pyInt10_digits _ h1 h2 (h4 4300 (by decide) h), h3]
 
 
+/-! ## escaping of string values -/
+
+theorem unescape_cons_ne (c : Char) (x : Str) (h : c ≠ '%') : unescape (c :: x) = c :: unescape x := by
+  have hc : (c == '%') = false := by simpa using h
+  cases x with
+  | nil => rfl
+  | cons b x =>
+    cases x with
+    | nil => rfl
+    | cons d r => simp only [unescape, hc, Bool.false_and, Bool.false_eq_true, if_false]
+
+/-- **`_unescape(_escape(s)) == s` for every string** -/
+theorem unescape_escape (s : Str) : unescape (escape s) = s := by
+  induction s with
+  | nil => rfl
+  | cons c cs ih =>
+    simp only [escape]
+    by_cases h1 : (c == '%') = true
+    · have : c = '%' := by simpa using h1
+      subst this
+      simp only [beq_self_eq_true, if_true, unescape, Bool.true_and, Bool.and_true]
+      simp [ih]
+    · have h1' : (c == '%') = false := by simpa using h1
+      simp only [h1', Bool.false_eq_true, if_false]
+      by_cases h2 : (c == ':') = true
+      · have : c = ':' := by simpa using h2
+        subst this
+        simp only [beq_self_eq_true, if_true, unescape, Bool.true_and, Bool.and_true]
+        simp [ih]
+      · have h2' : (c == ':') = false := by simpa using h2
+        simp only [h2', Bool.false_eq_true, if_false]
+        rw [unescape_cons_ne c _ (by simpa using h1'), ih]
+
+/-- an escaped string contains no colon -/
+theorem escape_no_colon (s : Str) : ∀ c ∈ escape s, c ≠ ':' := by
+  induction s with
+  | nil => intro c hc; simp [escape] at hc
+  | cons a r ih =>
+    intro c hc
+    simp only [escape] at hc
+    split at hc
+    · simp only [List.mem_cons] at hc
+      rcases hc with rfl | rfl | rfl | hc
+      · decide
+      · decide
+      · decide
+      · exact ih c hc
+    · split at hc
+      · simp only [List.mem_cons] at hc
+        rcases hc with rfl | rfl | rfl | hc
+        · decide
+        · decide
+        · decide
+        · exact ih c hc
+      · rename_i h2
+        simp only [List.mem_cons] at hc
+        rcases hc with rfl | hc
+        · simpa using h2
+        · exact ih c hc
+
 /-! ## evaluating `create_transport` on the generated tables with symbolic values -/
 
 section eval
@@ -366,6 +426,19 @@ def sTcp : Str := ['t','c','p']
 def sUdp : Str := ['u','d','p']
 def sVxi11 : Str := ['v','x','i','1','1']
 def sConnectTimeout : Str := ['c','o','n','n','e','c','t','_','t','i','m','e','o','u','t']
+def sAddress : Str := ['_','a','d','d','r','e','s','s']
+def sConnectTimeoutAttr : Str := ['_','c','o','n','n','e','c','t','_','t','i','m','e','o','u','t']
+def sHostAttr : Str := ['_','h','o','s','t']
+
+theorem badHost_false_of_valid {h : Str} (vh : validateHost h = .ok ()) :
+    (!(isValidHostname h) && !(isValidIp h)) = false := by
+  unfold validateHost at vh
+  by_cases h1 : isValidHostname h = true
+  · simp [h1]
+  · by_cases h2 : isValidIp h = true
+    · simp [h2]
+    · simp [h1, h2] at vh
+
 def clsTcp : Str := ['Q','M','I','_','T','c','p','T','r','a','n','s','p','o','r','t']
 def clsUdp : Str := ['Q','M','I','_','U','d','p','T','r','a','n','s','p','o','r','t']
 def clsVxi11 : Str := ['Q','M','I','_','V','x','i','1','1','T','r','a','n','s','p','o','r','t']
@@ -384,14 +457,14 @@ theorem isKw_false (cs : Str) (h : ∀ c ∈ cs, c ≠ '=') : isKw cs = false :=
   simpa using h c hc
 
 /-- the usbtmc branch on three keyword tokens whose pieces and conversions are known -/
-theorem usbtmc_eval (win : Bool) (s t1 t2 t3 w1 w2 sn : Str) (x1 x2 : Int)
+theorem usbtmc_eval (win : Bool) (s t1 t2 t3 w1 w2 w3 : Str) (x1 x2 : Int)
     (hparts : parseParts s = .ok [sUsbtmc, t1, t2, t3])
     (k1 : isKw t1 = true) (k2 : isKw t2 = true) (k3 : isKw t3 = true)
-    (s1 : splitEq t1 = [sVendorid, w1]) (s2 : splitEq t2 = [sProductid, w2]) (s3 : splitEq t3 = [sSerialnr, sn])
+    (s1 : splitEq t1 = [sVendorid, w1]) (s2 : splitEq t2 = [sProductid, w2]) (s3 : splitEq t3 = [sSerialnr, w3])
     (c1 : convKw .int w1 = .ok (.int x1)) (c2 : convKw .int w2 = .ok (.int x2))
     (r1 : 0 ≤ x1 ∧ x1 ≤ 65535) (r2 : 0 ≤ x2 ∧ x2 ≤ 65535) :
     ∃ cls, createTransport env win s [] =
-      .ok ⟨cls, [(sVendorid, .int x1), (sProductid, .int x2), (sSerialnr, .str sn)]⟩ := by
+      .ok ⟨cls, [(sVendorid, [.int x1]), (sProductid, [.int x2]), (sSerialnr, [.str (unescape w3)])]⟩ := by
   have hf : findIface env sUsbtmc = some usbtmc := by decide
   unfold createTransport
   rw [hparts]
@@ -400,12 +473,12 @@ theorem usbtmc_eval (win : Bool) (s t1 t2 t3 w1 w2 sn : Str) (x1 x2 : Int)
   unfold parseParams
   simp only [List.drop_succ_cons, List.drop_zero, List.filter_cons, k1, k2, k3, Bool.not_true, Bool.false_eq_true,
     if_false, if_true, List.filter_nil]
-  have v1 : ¬ (x1 < 0 ∨ x1 > 65535) := by omega
-  have v2 : ¬ (x2 < 0 ∨ x2 > 65535) := by omega
+  have v1 : ¬ (x1 < 0) ∧ ¬ (x1 > 65535) := by omega
+  have v2 : ¬ (x2 < 0) ∧ ¬ (x2 > 65535) := by omega
   cases win <;>
   simp [usbtmc, Iface.ctor, parsePositional, parseKeywords, s1, s2, s3, findParam, c1, c2,
-    (show convKw .str sn = .ok (.str sn) from rfl), catchValueError,
-    dset, dupdate, dictOf, dget, dhas, requiredNames, knownName, bindArgs, bindEach, construct, vId, arg, Res.andThen,
+    (show convKw .str w3 = .ok (.str (unescape w3)) from rfl), catchValueError,
+    dset, dupdate, dictOf, dget, dhas, requiredNames, knownName, bindArgs, bindEach, construct, exec, Cond.holds, arg,
     sVendorid, sProductid, sSerialnr, v1, v2]
 
 /-- the tcp branch on a host token and a port token -/
@@ -414,7 +487,7 @@ theorem tcp_eval (win : Bool) (s h pt : Str) (port : Int)
     (kh : isKw h = false) (kp : isKw pt = false) (cp : pyInt 10 pt = some port)
     (vh : validateHost h = .ok ()) (hl : h ≠ sLocalhost) (rp : 1 ≤ port ∧ port ≤ 65535) :
     createTransport env win s [] =
-      .ok ⟨clsTcp, [(sHost, .str h), (sPort, .int port), (sConnectTimeout, .int 10)]⟩ := by
+      .ok ⟨clsTcp, [(sAddress, [.str h, .int port]), (sConnectTimeoutAttr, [.int 10])]⟩ := by
   have hf : findIface env sTcp = some tcp := by decide
   unfold createTransport
   rw [hparts]
@@ -423,19 +496,19 @@ theorem tcp_eval (win : Bool) (s h pt : Str) (port : Int)
   unfold parseParams
   simp only [List.drop_succ_cons, List.drop_zero, List.filter_cons, kh, kp, Bool.not_false, Bool.false_eq_true,
     if_false, if_true, List.filter_nil]
-  have v1 : ¬ (port < 1 ∨ port > 65535) := by omega
+  have v1 : ¬ (port < 1) ∧ ¬ (port > 65535) := by omega
   have hl' : (h = sLocalhost) = False := eq_false hl
   cases win <;>
   simp [tcp, Iface.ctor, parsePositional, parseKeywords, convPos, cp, catchValueError,
-    dset, dupdate, dictOf, dget, dhas, requiredNames, knownName, bindArgs, bindEach, construct, vPort, arg, Res.andThen,
-    sHost, sPort, sConnectTimeout, clsTcp, v1, vh, hl']
+    dset, dupdate, dictOf, dget, dhas, requiredNames, knownName, bindArgs, bindEach, construct, exec, Cond.holds, arg,
+    sAddress, sConnectTimeoutAttr, clsTcp, v1, badHost_false_of_valid vh, hl']
 
 /-- the udp branch on a host token and a port token -/
 theorem udp_eval (win : Bool) (s h pt : Str) (port : Int)
     (hparts : parseParts s = .ok [sUdp, h, pt])
     (kh : isKw h = false) (kp : isKw pt = false) (cp : pyInt 10 pt = some port)
-    (vh : validateHost h = .ok ()) (hl : h ≠ sLocalhost) (rp : 1 ≤ port ∧ port ≤ 65535) (hr : port ≠ env.udpReserved) :
-    createTransport env win s [] = .ok ⟨clsUdp, [(sHost, .str h), (sPort, .int port)]⟩ := by
+    (vh : validateHost h = .ok ()) (hl : h ≠ sLocalhost) (rp : 1 ≤ port ∧ port ≤ 65535) (hr : port ≠ 35999) :
+    createTransport env win s [] = .ok ⟨clsUdp, [(sAddress, [.str h, .int port])]⟩ := by
   have hf : findIface env sUdp = some udp := by decide
   unfold createTransport
   rw [hparts]
@@ -444,18 +517,18 @@ theorem udp_eval (win : Bool) (s h pt : Str) (port : Int)
   unfold parseParams
   simp only [List.drop_succ_cons, List.drop_zero, List.filter_cons, kh, kp, Bool.not_false, Bool.false_eq_true,
     if_false, if_true, List.filter_nil]
-  have v1 : ¬ (port < 1 ∨ port > 65535) := by omega
+  have v1 : ¬ (port < 1) ∧ ¬ (port > 65535) := by omega
   have hl' : (h = sLocalhost) = False := eq_false hl
-  have hr' : (port = 35999) = False := eq_false (by simpa [env] using hr)
+  have hr' : (port = 35999) = False := eq_false hr
   cases win <;>
   simp [udp, Iface.ctor, parsePositional, parseKeywords, convPos, cp, catchValueError,
-    dset, dupdate, dictOf, dget, dhas, requiredNames, knownName, bindArgs, bindEach, construct, vPort, arg, Res.andThen,
-    sHost, sPort, clsUdp, v1, vh, hl', hr', env]
+    dset, dupdate, dictOf, dget, dhas, requiredNames, knownName, bindArgs, bindEach, construct, exec, Cond.holds, arg,
+    sAddress, clsUdp, v1, badHost_false_of_valid vh, hl', hr']
 
 /-- the vxi11 branch on a host token -/
 theorem vxi11_eval (win : Bool) (s h : Str)
     (hparts : parseParts s = .ok [sVxi11, h]) (kh : isKw h = false) (vh : validateHost h = .ok ()) :
-    createTransport env win s [] = .ok ⟨clsVxi11, [(sHost, .str h)]⟩ := by
+    createTransport env win s [] = .ok ⟨clsVxi11, [(sHostAttr, [.str h])]⟩ := by
   have hf : findIface env sVxi11 = some vxi11 := by decide
   unfold createTransport
   rw [hparts]
@@ -466,8 +539,8 @@ theorem vxi11_eval (win : Bool) (s h : Str)
     if_false, if_true, List.filter_nil]
   cases win <;>
   simp [vxi11, Iface.ctor, parsePositional, parseKeywords, convPos, catchValueError,
-    dset, dupdate, dictOf, dget, dhas, requiredNames, knownName, bindArgs, bindEach, construct, arg,
-    sHost, clsVxi11, vh]
+    dset, dupdate, dictOf, dget, dhas, requiredNames, knownName, bindArgs, bindEach, construct, exec, Cond.holds, arg,
+    sHostAttr, clsVxi11, badHost_false_of_valid vh]
 
 end eval
 
@@ -482,13 +555,13 @@ theorem lowerHex_plain_chars {cs : Str} (h : ∀ c ∈ cs, isLowerHex c = true) 
   have h2 : c ≠ '$' := lowerHex_ne (h c hc) (by decide)
   simp [isCloser, h1, h2]
 
-theorem parseParts_usbtmc (v p : Nat) (sn : Str) (hsn : ∀ c ∈ sn, c ≠ ':') :
+theorem parseParts_usbtmc (v p : Nat) (sn : Str) :
     parseParts (renderUsbtmc (Int.ofNat v) (Int.ofNat p) sn) =
-      .ok [sUsbtmc, sVendorKw ++ fmt04x (Int.ofNat v), sProductKw ++ fmt04x (Int.ofNat p), sSerialKw ++ sn] := by
+      .ok [sUsbtmc, sVendorKw ++ fmt04x (Int.ofNat v), sProductKw ++ fmt04x (Int.ofNat p), sSerialKw ++ escape sn] := by
   obtain ⟨_, hv, _⟩ := fmt04x_spec v
   obtain ⟨_, hp, _⟩ := fmt04x_spec p
   have hs : renderUsbtmc (Int.ofNat v) (Int.ofNat p) sn =
-      sUsbtmc ++ joinTail [sVendorKw ++ fmt04x (Int.ofNat v), sProductKw ++ fmt04x (Int.ofNat p), sSerialKw ++ sn] := by
+      sUsbtmc ++ joinTail [sVendorKw ++ fmt04x (Int.ofNat v), sProductKw ++ fmt04x (Int.ofNat p), sSerialKw ++ escape sn] := by
     simp [renderUsbtmc, joinTail]
   have pl : ∀ (pre body : Str), pre ≠ [] → (∀ c ∈ pre, c ≠ ':') → pre.head? ≠ some '[' → (∀ c ∈ body, c ≠ ':') →
       Plain (pre ++ body) := by
@@ -509,7 +582,7 @@ theorem parseParts_usbtmc (v p : Nat) (sn : Str) (hsn : ∀ c ∈ sn, c ≠ ':')
     rcases hq with rfl | rfl | rfl
     · exact pl _ _ (by decide) (by decide) (by decide) (lowerHex_plain_chars hv).1
     · exact pl _ _ (by decide) (by decide) (by decide) (lowerHex_plain_chars hp).1
-    · exact pl _ _ (by decide) (by decide) (by decide) hsn
+    · exact pl _ _ (by decide) (by decide) (by decide) (escape_no_colon sn)
 
 /-- `<iface>:<host>:<port>` with the host bracketed when it contains a colon -/
 theorem parseParts_hostPort (iface h : Str) (port : Nat) (hi : iface ≠ []) (hic : ∀ c ∈ iface, c ≠ ':')
